@@ -9,7 +9,7 @@ PROPS = "Props/C40.v"
 # Which instance of the parametrised model (coq/Model/Interval.v, record cfg) describes the working
 # tree. "asis" = the pinned tree with its four defects; after a repair set the corresponding field
 # to True here (and move the known-finding line to fixed:), nothing else changes.
-CFG = {"fix_gap": False, "fix_clip": False, "fix_eqend": False, "fix_encl": False}
+CFG = {"fix_gap": False, "fix_clip": True, "fix_eqend": True, "fix_encl": True}
 # for trying a repair in a scratch copy (VERIF_REPO=...): VERIF_C40_CFG=fix_gap,fix_clip,fix_eqend,fix_encl
 import os as _os
 for _k in filter(None, _os.environ.get("VERIF_C40_CFG", "").split(",")):
